@@ -27,3 +27,11 @@ package types
 //@ func (p *ProcessConfig) IsDeferred
 //@   ensures result <==> (p.IsForeground || p.Disabled)
 //@   assigns nothing
+
+// WithProcesses changes nothing itself: the only effects are those of the visitor it is given (added at each
+// call site from the visitor's body); the `done` set is private to one traversal. This frame is trusted (the
+// recursive traversal below it is checked by the bounded stand-in of C07, not deductively).
+//@ func (p *Project) WithProcesses
+//@   flag trusted frame_of_param=fn
+//@   param fn as procvisitor
+//@   assigns nothing
